@@ -75,10 +75,8 @@ def extra(ctx: Ctx):
     corpus(ctx)
     if not (ok1 and ok2):
         return  # the broken extractor is already recorded as an obligation; the rig needs both tables
-    if not proved:
-        ctx.notes.append("R-schema: model side skipped, the module does not build")
-        return
-    rig.schema_predicts_live(ctx, scenarios(ctx), registry())
+    # if the module no longer builds the rig still runs its implementation-side parts (search for a concrete failing input)
+    rig.schema_predicts_live(ctx, scenarios(ctx), registry(), model_ok=bool(proved))
 
 
 def run(ctx: Ctx):
@@ -94,6 +92,7 @@ def replay(rec: dict) -> bool:
     game = scen.make_game(scen.load_cfg(scen.shipped()[name]))
     for r in rp.get("setup", []):
         game.simulation.apply_request(list(r))
+    rig.apply_ops(game.simulation, rp.get("setup_ops", []))
     reg = registry()
     req = reg[rp["action"]].form_request(reg[rp["action"]].ConfigSchema(type=rp["action"], **rp["opts"]))
     reach, _ = rig.live_walk(game.simulation._request_manager, req)
